@@ -21,4 +21,22 @@ CHECKS = {
         'model after every event; real threads (switch interval 1e-6) are compared with sequential results.',
    note='Thread half is partial: atomicity of lock-protected sections under CPython/GIL, liveness under the real scheduler are observed, not proved. '
         'Trusted: SHA-1 collision freeness; compile/evaluate touch no other shared state (section variables); the translator for the two constants.'),
+ 'C08': dict(
+   text='Theorems (Coq) for all stores and all names/values: every write path (attributes[k]=v, setAttribute, removeAttribute, del) refines an ordered map of the plain names '
+        '(update in place / append / delete), class/style writes and synchronising reads leave it untouched, invalid names are rejected atomically with KeyError, names are '
+        'case-insensitive, getAttribute (plain and boolean rule), hasAttribute and items() decode that one map in its order; on every reachable state of every history over the '
+        'whole operation alphabet the raw dict has no duplicate key. Tie: thousands of histories (exhaustive short, random to 25 ops, 4 element origins) run on the real element and on '
+        'the model in coqc, all views compared after every operation incl. read-order effects of lazy synchronisation.',
+   note='Trusted: Coq kernel + vm_compute; harness; translator for the dispatch tables (Gen/Tables.v regenerated from constants.py each run); CPython dict order and ASCII str methods as transcribed in Model/Str.v; html.parser/pickle/copy for the views compared by the oracle only. Model: SpecialAttributesDict, StyleAttribute, DOMTokenList and the Tags.py accessors (Model/Attr.v).' + ' Partial: AttributeNodeMap, getAttributesDict, clone/copy/repr/pickle and re-parse views are compared by the Python oracle on every history, not modelled.'),
+ 'C09': dict(
+   text='Theorems (Coq): addClass/removeClass on a single name are append-unless-present / remove-first; for any operand and fuel the old list stays a prefix, addClass adds no duplicate '
+        'and no empty name, removeClass only removes; className= yields non-empty names; class key present after synchronisation iff the list is non-empty and then carries the joined list; '
+        'invariant on every reachable state of every history. Tie: exhaustive length<=2(3) histories over the property\'s operand set + random to 30 on direct/parsed/cloned/unpickled elements, '
+        'all views after every operation.',
+   note='Trusted: Coq kernel + vm_compute; harness; translator for the dispatch tables (Gen/Tables.v regenerated from constants.py each run); CPython dict order and ASCII str methods as transcribed in Model/Str.v; html.parser/pickle/copy for the views compared by the oracle only. Model: SpecialAttributesDict, StyleAttribute, DOMTokenList and the Tags.py accessors (Model/Attr.v).' + ' Partial: the multi-name equation addClass("a b") = addClass b . addClass a is covered by the general prefix/no-dup theorem and the correspondence, not as an equation.'),
+ 'C10': dict(
+   text='Theorems (Coq): all seven write paths refine one put / one parse on the ordered style map; camelCase and dash names address the same property; written values read back; '
+        'style key present after synchronisation iff a property remains; style equality is lookup-equality (order ignored); reachable-state invariant. Tie: exhaustive/sampled/random write '
+        'histories over 6 properties x 6 values x 7 whole-style strings on 4 element origins, all views after every write.',
+   note='Trusted: Coq kernel + vm_compute; harness; translator for the dispatch tables (Gen/Tables.v regenerated from constants.py each run); CPython dict order and ASCII str methods as transcribed in Model/Str.v; html.parser/pickle/copy for the views compared by the oracle only. Model: SpecialAttributesDict, StyleAttribute, DOMTokenList and the Tags.py accessors (Model/Attr.v).' + ' Partial: styleToDict(as_str d) = d is checked on every reached state by oracle and in one Example, not proved for all d; non-aliasing is by construction in the model and checked by the oracle.'),
 }
